@@ -221,3 +221,80 @@ Lemma ex_result_wf : wf exchangeBatchResult ex_result = true.
 Proof. vm_compute. reflexivity. Qed.
 Lemma ex_result_encodes : exists e, EncodeExchangeBatchResult ex_result = Some e.
 Proof. eexists. vm_compute. reflexivity. Qed.
+
+(* ---- whatever the decoders accept is within the declared bounds ------------------------------- *)
+
+Ltac repl_unfold :=
+  unfold exchangeBatchResult, exchangeItemResult, fetchResult, recoveryProposal, probeResult, entryProbe,
+    replicateResult, replicateProof, fetchProof, fetchRequest, probeProof, probeRequest, replicateRequest,
+    indexes, records, record, replicaState, entryIdentity, proposalManifest, channelIdentity,
+    f_reqid, f_d32, f_str, f_int, f_u16v, FMap in *.
+
+Ltac wfmt_tac :=
+  repeat (cbn [wfmt ck_rem];
+          first [ exact I | reflexivity
+                | match goal with
+                  | |- _ /\ _ => split
+                  | |- (forall v, _ = false) \/ _ => right
+                  | |- forall _, _ => intro
+                  | x : (_ * _)%type |- _ => destruct x
+                  | |- _ < _ => unfold MaxExchangeBatchItems, maxRecoveryProbeIndexes,
+                                       maxRecoveryReplacementProposals, two64; lia
+                  end ]).
+
+Lemma exchangeItemResult_wfmt : wfmt exchangeItemResult.
+Proof. repl_unfold. wfmt_tac. Qed.
+
+Lemma exchangeBatchResult_wfmt : wfmt exchangeBatchResult.
+Proof.
+  unfold exchangeBatchResult, FMap. cbn [wfmt ck_rem]. split.
+  - split; [right; exact I|]. right. split; [reflexivity|]. split; [unfold MaxExchangeBatchItems, two64; lia|].
+    intro i. apply exchangeItemResult_wfmt.
+  - intros [v l] W. cbn [wf fst snd] in W.
+    apply andb_true_iff in W. destruct W as [_ W]. apply andb_true_iff in W. destruct W as [_ W].
+    destruct l as [[|it l]|]; try discriminate. split; reflexivity.
+Qed.
+
+(* Whatever DecodeExchangeBatchResult accepts — from ANY byte string — is in the encoder's
+   domain: at most 256 items, at most 256 entries / proposals / records / indexes in every
+   slice, versions within uint16, sizes within int, request ids non-zero. *)
+Theorem result_decoded_in_bounds : forall data b,
+  all_bytes data = true -> DecodeExchangeBatchResult data = Some b -> wf exchangeBatchResult b = true.
+Proof.
+  intros data b B H. unfold DecodeExchangeBatchResult in H.
+  destruct ((blen data =? 0) || (MaxExchangeBatchBytes <? blen data)); [discriminate|].
+  eapply decode_full_wf; [apply exchangeBatchResult_wfmt|exact B|exact H].
+Qed.
+
+Lemma itemBody_wfmt p k : wfmt (itemBody p k).
+Proof.
+  unfold itemBody, f_fail.
+  destruct (k =? ExchangeReplicate); [repl_unfold; wfmt_tac|].
+  destruct (k =? ExchangeProbe).
+  { destruct (p =? ExchangePriorityForeground); [repl_unfold; wfmt_tac|cbn [wfmt]; left; reflexivity]. }
+  destruct (k =? ExchangeFetch).
+  { destruct (p =? ExchangePriorityForeground); [repl_unfold; wfmt_tac|cbn [wfmt]; left; reflexivity]. }
+  cbn [wfmt]. left. reflexivity.
+Qed.
+
+Lemma exchangeBatch_wfmt valid : wfmt (exchangeBatch valid).
+Proof.
+  unfold exchangeBatch, exchangeItem, FMap. cbn [wfmt ck_rem].
+  split.
+  - split; [split; right; exact I|]. intro vp. right. cbn [wfmt ck_rem].
+    split; [reflexivity|]. split; [unfold MaxExchangeBatchItems, two64; lia|].
+    intro i. right. cbn [wfmt]. split.
+    + split; [split; [right; exact I|exact I]|]. intro rk. apply itemBody_wfmt.
+    + intros [[r k] b] _. split; reflexivity.
+  - intros [[v p] l] W. cbn [wf fst snd] in W.
+    apply andb_true_iff in W. destruct W as [_ W]. apply andb_true_iff in W. destruct W as [_ W].
+    destruct l as [[|it l]|]; try discriminate. split; reflexivity.
+Qed.
+
+Theorem batch_decoded_in_bounds : forall valid data b,
+  all_bytes data = true -> DecodeExchangeBatch valid data = Some b -> wf (exchangeBatch valid) b = true.
+Proof.
+  intros valid data b B H. unfold DecodeExchangeBatch in H.
+  destruct ((blen data =? 0) || (MaxExchangeBatchBytes <? blen data)); [discriminate|].
+  eapply decode_full_wf; [apply exchangeBatch_wfmt|exact B|exact H].
+Qed.
